@@ -43,6 +43,13 @@ var replacements = map[string]string{
 	"crypto/cipher.NewCTR":              "M_NewCTR",
 	"crypto/cipher.NewCBCEncrypter":     "M_NewCBCEncrypter",
 	"crypto/cipher.NewCBCDecrypter":     "M_NewCBCDecrypter",
+	// in-memory file system (FSIM temp file / rename idiom)
+	"os.CreateTemp":    "M_CreateTemp",
+	"(*os.File).Write": "M_FileWrite",
+	"(*os.File).Name":  "M_FileName",
+	"(*os.File).Close": "M_FileClose",
+	"os.Remove":        "M_Remove",
+	"os.Rename":        "M_Rename",
 }
 
 // InstallModels wires the replacement table and model globals. It must be
